@@ -323,8 +323,12 @@ func helper() {
 }
 
 // newInstance constructs a relay-only router whose state lives in the given file.
-func newInstance(statePath string) (*mycoria.Instance, error) {
+func newInstance(statePath string) (*mycoria.Instance, error) { return newInstanceIn(statePath, "") }
+
+// newInstanceIn: the same router, configured for the given universe.
+func newInstanceIn(statePath, universe string) (*mycoria.Instance, error) {
 	st := config.Store{}
+	st.Router.Universe = universe
 	st.Router.Address = mesh.Identities(1)[0].Store()
 	st.System.DisableTun = true
 	st.System.StatePath = statePath
@@ -398,7 +402,64 @@ func instanceGenerations(c *vf.Ctx) {
 			c.Distinct(fmt.Sprintf("instance|%s|%s", first, kill))
 		}
 	}
-	c.Stage("R-instance", map[string]any{"kills": n})
+	// round trip through whole routers: what one router stored (two routers it learnt, in the default universe) is
+	// there, field for field, after another start / stop of the same router - also when its configuration has
+	// changed in between (another universe): starting and stopping a router is no reason to rewrite what it stored
+	for _, uni := range []string{"", "lab"} {
+		dir := filepath.Join(c.Work, "inst-roundtrip-"+uni)
+		_ = os.MkdirAll(dir, 0o755)
+		path := filepath.Join(dir, "state.json")
+		in1, err := newInstanceIn(path, "")
+		if err != nil {
+			c.Fatal("instance round trip: %v", err)
+		}
+		if err := in1.Start(); err != nil {
+			c.Fatal("instance start: %v", err)
+		}
+		for _, id := range mesh.Identities(4)[1:3] {
+			pa := id.PublicAddress
+			_ = in1.State().AddRouter(&pa)
+		}
+		if !in1.Stop() {
+			c.Fatal("instance stop failed")
+		}
+		before, _ := os.ReadFile(path)
+		in2, err := newInstanceIn(path, uni)
+		if err != nil {
+			c.Violation(vf.Key("instance-refuses-to-start", "roundtrip", uni), fmt.Sprintf("a router configured for universe %q refuses to start on the state its previous run stored: %v", uni, err), nil, nil)
+			continue
+		}
+		if err := in2.Start(); err == nil {
+			_ = in2.Stop()
+		}
+		after, _ := os.ReadFile(path)
+		c.Eval(1)
+		var b1, b2 struct {
+			Routers map[string]map[string]any `json:"routers"`
+		}
+		_ = json.Unmarshal(before, &b1)
+		_ = json.Unmarshal(after, &b2)
+		strip := func(rs map[string]map[string]any) string { // usedAt is the one field a start may touch (sessions are looked up)
+			var out []string
+			for ip, r := range rs {
+				delete(r, "usedAt")
+				x, _ := json.Marshal(r)
+				out = append(out, ip+" "+string(x))
+			}
+			sort.Strings(out)
+			return strings.Join(out, "\n")
+		}
+		if len(b1.Routers) < 2 {
+			c.Broken("instance round trip: the first run stored %d routers", len(b1.Routers))
+			continue
+		}
+		if s1, s2 := strip(b1.Routers), strip(b2.Routers); s1 != s2 {
+			c.Violation(vf.Key("instance-roundtrip", uni), fmt.Sprintf("an idle start / stop of the router (configured for universe %q) changed the routers it had stored:\nbefore: %s\nafter:  %s", uni, tailStr(s1, 700), tailStr(s2, 700)),
+				map[string]any{"universe": uni, "before": s1, "after": s2}, nil)
+		}
+		c.Distinct("instance-roundtrip|" + uni)
+	}
+	c.Stage("R-instance", map[string]any{"kills": n, "roundtrips": 2})
 }
 
 func tailStr(s string, n int) string {
